@@ -11,7 +11,7 @@ for line in open(sys.argv[1], errors="replace"):
         audit[m.group(1)] = m.group(2)
 for f in sys.argv[2:]:
     for line in open(f, errors="replace"):
-        m = re.match(r"^(C\d+_\d+) (C\d+) demo_rc=(\S+) check_rc=(\S+) :: (.*)$", line.strip())
+        m = re.match(r"^(C\d+_\d+) (C\d+) demo_rc=(\S+) check_rc=(\S+) ::\s*(.*)$", line.strip())
         if m:
             matrix[m.group(1)] = dict(check=m.group(2), demo_rc_with_patch=m.group(3), check_rc=m.group(4), first_signatures=re.findall(r"signature=(\S+)", m.group(5))[:3])
 n = 0
